@@ -204,3 +204,28 @@ func joinSyms(alpha []string, seq []int, sep string) string {
 	}
 	return sb.String()
 }
+
+// nestedArgLaw: a filter argument may itself be a filtered expression in parentheses - `x | e | f: (y | g)`. It means
+// what the same steps mean through assign: `{% assign t = y | g %}{{ x | e | f: t }}`. Each case is [pipeline, argument
+// expression]; the pipeline mentions the argument as ARG. Checked as an object, as the right-hand side of an assign
+// and inside a condition.
+func nestedArgLaw(r *explore.Rec, eng *liquid.Engine, key string, pipeline, arg string, bind map[string]any) {
+	nested := strings.ReplaceAll(pipeline, "ARG", "("+arg+")")
+	flat := strings.ReplaceAll(pipeline, "ARG", "argt")
+	forms := [][2]string{
+		{"{{ " + nested + " }}", "{% assign argt = " + arg + " %}{{ " + flat + " }}"},
+		{"{% assign res = " + nested + " %}[{{ res }}]", "{% assign argt = " + arg + " %}{% assign res = " + flat + " %}[{{ res }}]"},
+		{"{% for q in (1..2) %}{{ " + nested + " }};{% endfor %}", "{% assign argt = " + arg + " %}{% for q in (1..2) %}{{ " + flat + " }};{% endfor %}"},
+	}
+	for _, f := range forms {
+		r.Eval()
+		r.Transition()
+		a, b := Render(eng, f[0], bind), Render(eng, f[1], bind)
+		if b.Panic != nil || b.Err != nil {
+			panic(explore.BaselineFailure{Msg: "harness: decomposed pipeline fails: " + f[1] + ": " + b.String()})
+		}
+		if a.String() != b.String() {
+			r.Violation(key, map[string]any{"pipeline": f[0], "through_assign": f[1]}, b.String(), a.String())
+		}
+	}
+}
